@@ -600,6 +600,7 @@ def s6(tier):
     TA = window('TA', ['A'], fm0, 2, same, kind='transition', start=1)
     outers = [([O], cross(['O'], ['O'])),
               ([O, P], cross(['O', 'P'], ['O'])),
+              ([P, O], cross(['P', 'O'], ['O'])),          # the uncrossed outer factor listed first
               ([O], cross(['O'], ['O'], [{'c': 'Pin', 'index': 0, 'factor': 'O', 'level': 'o0'}]))]
     inners = [([A], cross(['A'], ['A'])),
               ([A, B], cross(['A', 'B'], ['A'])),
@@ -653,6 +654,13 @@ def s6(tier):
                                 'constraints': []}, 'S6'))
     out.append(spec([O, P, A], {'op': 'nest', 'outer': {'op': 'nest', 'outer': cross(['O'], ['O']), 'inner': cross(['P'], ['P']), 'constraints': []},
                                 'inner': cross(['A'], ['A']), 'constraints': []}, 'S6'))
+    # MinimumTrials on a Nest of a Nest (two sustain levels: the count is rounded up to whole runs of both)
+    for k in (5, 9, 10):
+        out.append(spec([O, P, A], {'op': 'nest', 'outer': cross(['O'], ['O']),
+                                    'inner': {'op': 'nest', 'outer': cross(['P'], ['P']), 'inner': cross(['A'], ['A']), 'constraints': []},
+                                    'constraints': [{'c': 'MinimumTrials', 'k': k}]}, 'S6'))
+        out.append(spec([O, P, A], {'op': 'nest', 'outer': {'op': 'nest', 'outer': cross(['O'], ['O']), 'inner': cross(['P'], ['P']), 'constraints': []},
+                                    'inner': cross(['A'], ['A']), 'constraints': [{'c': 'MinimumTrials', 'k': k}]}, 'S6'))
     # Repeat / Merge of Nest
     n1 = {'op': 'nest', 'outer': cross(['O'], ['O']), 'inner': cross(['A'], ['A']), 'constraints': []}
     out.append(spec([O, A], {'op': 'merge', 'blocks': [n1], 'constraints': [{'c': 'MinimumTrials', 'k': 8}], 'mode': 'repeat'}, 'S6'))
